@@ -156,6 +156,15 @@ impl SwarmDriver {
         Ok(())
     }
 
+    #[cfg(maidsafe_safe_network_verif)]
+    pub(crate) fn verif_add_keys_to_replication_fetcher(
+        &mut self,
+        sender: NetworkAddress,
+        incoming_keys: Vec<(NetworkAddress, RecordType)>,
+    ) {
+        self.add_keys_to_replication_fetcher(sender, incoming_keys)
+    }
+
     fn add_keys_to_replication_fetcher(
         &mut self,
         sender: NetworkAddress,
